@@ -29,10 +29,12 @@ type c20Case struct {
 	tenants []string
 	salt    int
 	nser    int
+	// afterOverride: the ring under test is listed after a hashring that overrides the algorithm (see ringBuild)
+	afterOverride bool
 }
 
 func (c c20Case) String() string {
-	return fmt.Sprintf("rf=%d tenants=%q salt=%d eps=[%s] add=%s at %d", c.rf, c.tenants, c.salt, ringRenderEndpoints(c.eps), c.added.Address, c.pos)
+	return fmt.Sprintf("rf=%d tenants=%q salt=%d afterOverride=%v eps=[%s] add=%s at %d", c.rf, c.tenants, c.salt, c.afterOverride, ringRenderEndpoints(c.eps), c.added.Address, c.pos)
 }
 
 func (c c20Case) after() []receive.Endpoint {
@@ -44,11 +46,11 @@ func (c c20Case) after() []receive.Endpoint {
 }
 
 func c20Check(c c20Case) (string, bool, []string) {
-	before, err := ringBuild(receive.AlgorithmKetama, uint64(c.rf), c.eps)
+	before, err := ringBuild(receive.AlgorithmKetama, uint64(c.rf), c.eps, c.afterOverride)
 	if err != nil {
 		return "building the ring failed: " + err.Error(), false, nil
 	}
-	after, err := ringBuild(receive.AlgorithmKetama, uint64(c.rf), c.after())
+	after, err := ringBuild(receive.AlgorithmKetama, uint64(c.rf), c.after(), c.afterOverride)
 	if err != nil {
 		return "building the enlarged ring failed: " + err.Error(), false, nil
 	}
@@ -165,6 +167,7 @@ func c20Gen(rt *rapid.T) c20Case {
 	c.pos = rapid.IntRange(0, n).Draw(rt, "pos")
 	c.rf = rapid.IntRange(1, hi).Draw(rt, "rf")
 	c.salt = rapid.IntRange(0, 999).Draw(rt, "salt")
+	c.afterOverride = rapid.IntRange(0, 3).Draw(rt, "afterAlgorithmOverride") == 0
 	c.tenants = []string{genTenant(rt), "tenant-" + rapid.StringMatching(`[a-c]{0,2}`).Draw(rt, "tenant2")}
 	return c
 }
@@ -192,6 +195,9 @@ func TestVerifC20(t *testing.T) {
 		msg, nt, classes := c20Check(c)
 		if msg != "" {
 			rt.Fatalf("C20 violated: %s\ncase: %s", msg, c)
+		}
+		if c.afterOverride {
+			classes = append(classes, "listed-after-algorithm-override")
 		}
 		rec.Case(c.String(), nt, classes...)
 	})
